@@ -19,6 +19,7 @@ RULE = ("Generated: three state types, n 1..3 (thorough ..4), parameters with sc
         "Non-trivial = non-real target and (complex/density) a basis containing Y, (density) target rank > 1.")
 RULE_EXT = ('Extended as built: deprecated aliases, repeatability and target-unchanged checks, sparse targets with exact zeros (TINY=1e-15 convention), bases given as ndarray, datasets of up to 700 rows, polarised states, an in-place parameter history A -> B -> A, ignored extra keyword arguments. Rounds 5-6: user-added / overridden unitaries (letters used in bases); conditioning-based exclusion of rotated probabilities that are tiny through cancellation (error bound on KL > 1e-10, counted); the dict of per-basis targets passed by the caller is unchanged and a second call gives the same value.')
 RULE_EXT += " Round 10 (after an exception / long time axis): after an aborted fit() (normalisation evaluated in its callbacks on the caller's space object): metrics evaluated, parameters changed, fidelity with the own state = 1 and NLL of basis state 0 = -log of its own probability; 36 parameter states on one object."
+RULE_EXT += ' Re-entrant use: fidelity with the own state and NLL of basis state 0 asked for from inside the callbacks of a running fit.'
 RULE = RULE + " " + RULE_EXT
 ASSUMPTIONS = ["rotated Born probabilities that are tiny because their terms cancel (|sum|/sum|terms| small) are ill-conditioned in any float64 implementation: cases where the resulting error bound on KL exceeds 1e-10 (or a sampled row has |sum|/sum|terms| < 1e-6) are excluded and counted; KL against the model's own state is 0 to within 2e-8 (softplus threshold e^-20 per hidden unit)",
                "cases where a reference Born probability that is paired with positive target mass is < 1e-15 are excluded and counted "
@@ -70,6 +71,7 @@ def cases(draw, tier):
     c["space_default"] = draw(st.booleans())
     c["aborted_first"] = draw(st.integers(0, 2)) == 0
     c["many_states"] = draw(st.integers(0, 7)) == 0
+    c["inside_fit"] = draw(st.integers(0, 2)) == 0
     N = draw(st.integers(1, 6)) if draw(st.integers(0, 19)) else draw(st.integers(257, 700))     # occasionally a large data set
     U01 = st.floats(0, 1, exclude_max=True, allow_nan=False, width=64)
     if N <= 6:
@@ -294,6 +296,24 @@ def check(c):
                 nl_ = TS.NLL(state, R.rows_from_indices([0], n), space)
                 require(abs(nl_ + math.log(p0_)) <= 1e-7 * (1 + abs(math.log(p0_))), bucket + ":NLL", f"{what}: NLL of basis state 0 is {nl_}, minus the log of its current probability is {-math.log(p0_)}")
 
+        if c.get("inside_fit") and n <= 3:
+            # re-entrant use: the metrics asked for from INSIDE the callbacks of a running fit (as MetricEvaluator does), at every epoch end and
+            # every batch end: each answer must be that of the parameters the model has at that moment
+            from qucumber.callbacks import LambdaCallback
+            dat_ = state.generate_hilbert_space()[: min(4, D)].clone()
+            guard_, div_ = gen.divergence_guard()
+            looks_ = [0]
+
+            def look_(s_):
+                if all(bool(torch.isfinite(p_).all()) for net_ in s_.networks for p_ in getattr(s_, net_).parameters()):
+                    looks_[0] += 1
+                    own_metrics(f"look #{looks_[0]} from inside a callback of a running fit", "inside-fit-callback")
+            state.fit(dat_, epochs=2, pos_batch_size=2, lr=0.05, callbacks=[guard_, LambdaCallback(on_batch_end=lambda s_, e_, b_: look_(s_), on_epoch_end=lambda s_, e_: look_(s_))],
+                      **({} if t == "positive" else {"input_bases": np.array([["Z"] * n] * dat_.shape[0])}))
+            state.stop_training = False
+            gen.set_net(state.rbm_am, sc["am"])
+            if sc.get("ph"):
+                gen.set_net(state.rbm_ph, sc["ph"])
         if c.get("aborted_first"):
             # after an exception: a fit() whose callbacks evaluate the normalisation is aborted by a user callback (caught); metrics are
             # evaluated once, the parameters change without a completed fit (below), and the metrics must follow
